@@ -105,6 +105,18 @@ def leaves(v, out):
     return out
 
 
+def leaf_vals(v, out):
+    if v is True or v is False or v[0] in ("null", "int", "f64", "str"):
+        out.append(v)
+    elif v[0] == "arr":
+        for x in v[1]:
+            leaf_vals(x, out)
+    else:
+        for _, x in v[1]:
+            leaf_vals(x, out)
+    return out
+
+
 def shape(v):
     if v is True or v is False or v[0] in ("int", "f64", "str"):
         return "L"
@@ -350,6 +362,18 @@ def run(ctx):
             q = (di, idx, entry, enc, p, du, "n")
             if q in trees and shape(trees[q]) != shape(tr):
                 ctx.fail("narrow-shape", "type narrowing changes the structure", [out[q][1], c], [out[q][0], o])
+            elif q in trees:
+                # a leaf that stays a string is the same string whatever the narrowing option
+                for a, b in zip(leaf_vals(tr, []), leaf_vals(trees[q], [])):
+                    if a is not True and a is not False and a[0] == "str" and a != b:
+                        ctx.fail("narrow-string-differs", "a string leaf depends on the type-narrowing option: %s vs %s" % (show(a)[:80], show(b)[:80]), [out[q][1], c], [out[q][0], o], "equal strings")
+                        break
+        else:
+            # TypeNarrowing::None: no leaf anywhere (also below headers) is narrowed to a boolean or a number
+            for a in leaf_vals(tr, []):
+                if a is True or a is False or a[0] in ("int", "f64"):
+                    ctx.fail("narrow-none-ignored", "TypeNarrowing::None but the output contains the narrowed leaf %s" % show(a)[:60], [c], [o], "string leaves only")
+                    break
         # nothing lost between Preserve and Group
         if du == "g":
             q = (di, idx, entry, enc, p, "p", na)
